@@ -77,7 +77,11 @@ def get_chunk_dtype_transformer(input_dtype, output_dtype, warn=True):
     def chunk_transformer(chunk, preserve_input=True):
         assert np.can_cast(chunk.dtype, input_dtype, casting="equiv")
         if round_to_nearest or clip_values:
-            chunk = np.array(chunk, dtype=work_dtype, copy=preserve_input)
+            if preserve_input or not chunk.flags.writeable:
+                chunk = np.array(chunk, dtype=work_dtype, copy=True)
+            else:
+                # re-use the input buffer if possible, copy only if needed
+                chunk = np.asarray(chunk, dtype=work_dtype)
             if round_to_nearest:
                 np.rint(chunk, out=chunk)
             if clip_values:
